@@ -665,7 +665,12 @@ def set_const_0(m: types.Model, d: types.Data, restore: bool = True):
 
   smooth.kinematics(m, d)
   smooth.com_pos(m, d)
+  # reference poses are defined in fixed mode (as mj_setConst does): tracking / targeting
+  # modes would read the very cam_pos0 / cam_poscom0 / cam_mat0 being recomputed
+  cam_mode, light_mode = m.cam_mode, m.light_mode
+  m.cam_mode, m.light_mode = wp.zeros_like(cam_mode), wp.zeros_like(light_mode)
   smooth.camlight(m, d)
+  m.cam_mode, m.light_mode = cam_mode, light_mode
   smooth.flex(m, d)
   smooth.tendon(m, d)
   smooth.crb(m, d)
